@@ -320,6 +320,7 @@ def oracle_session(seed, index, n_bursts=None):
     problems = []
     mods_before = set(sys.modules)
     old = signal.signal(signal.SIGALRM, _alarm)
+    rt.GUARD_DECREF = False
     try:
         with hw.Session(config={}) as s:
             g = hw.Gen(r, s)
@@ -415,6 +416,7 @@ def oracle_session(seed, index, n_bursts=None):
             if new:
                 problems.append("canary module imported: %r" % new)
     finally:
+        rt.GUARD_DECREF = True
         signal.alarm(0)
         signal.signal(signal.SIGALRM, old)
     return "; ".join(problems) if problems else None
